@@ -139,7 +139,7 @@ impl Property for C10 {
     fn runs(&self, tier: Tier) -> u64 {
         match tier {
             Tier::Quick => 15000,
-            Tier::Thorough => 1500000,
+            Tier::Thorough => 500000,
         }
     }
 
@@ -198,6 +198,7 @@ impl Property for C10 {
                 }
             }
         }
+        let scale_case = scale_case && !very_wide(&net);
         let n = if scale_case { rng.range(30, 120) } else { rng.range(1, 8) };
         let train = gen_data(rng, &net, n);
         let v = rng.range(1, 4);
